@@ -58,6 +58,46 @@ def int8OfByte (b : Nat) : Int := if b < 128 then (b : Int) else (b : Int) - 256
 def newSignature (r s rec : List Nat) : Signature :=
   ⟨natOfBytes r, natOfBytes s, int8OfByte (rec.headD 0)⟩
 
+/-! ## signing protocol states (`pkg/tecdsa/signing/states.go`) -/
+
+/-- admission test of every signing state's `Receive` (message kinds 0..9) -/
+def sAdmitted (self sess : Nat) (g : Group) (seats : List Nat) (m : Msg) : Bool :=
+  decide (m.kind < 10) && shouldAccept self g seats m.sender m.op && (sess == m.sess)
+
+/-- index of the finalization state (its `Receive` ignores every message) -/
+def sLast : Nat := 11
+
+/-- message kind awaited by signing state `st` (0 ephemeral, 1 symmetric: none, 2..10 rounds 1..9) -/
+def sKindOf (st : Nat) : Option Nat :=
+  if st = 0 then some 0 else if 2 ≤ st ∧ st ≤ 10 then some (st - 1) else none
+
+def sStep (self sess : Nat) (g : Group) (seats : List Nat) (s : St) : Ev → St
+  | .recv m =>
+    if s.idx < sLast ∧ sAdmitted self sess g seats m = true then { s with hist := s.hist ++ [m] } else s
+  | .next => if s.idx < sLast then { s with idx := s.idx + 1 } else s
+
+def sRun (self sess : Nat) (g : Group) (seats : List Nat) (evs : List Ev) : St :=
+  evs.foldl (sStep self sess g seats) ⟨0, []⟩
+
+def sCanTransition (st : Nat) (g : Group) (h : List Msg) : Bool :=
+  match sKindOf st with
+  | some k => (received h k).length + 1 == g.operating.length
+  | none => true
+
+/-- `srecv` observation: as `C07.holdsRecv` for the ten signing message types. -/
+def holdsSrecv (self sess : Nat) (g : Group) (seats : List Nat) (evs : List Ev) (st : Nat) (can : Bool)
+    (lists : List (List (Nat × Nat))) : Bool :=
+  ((List.range lists.length).all fun k =>
+    let l := lists.getD k []
+    l.all (fun (p : Nat × Nat) =>
+      match evs[p.2]? with
+      | some (.recv m) => m.sender == p.1 && m.kind == k && sAdmitted self sess g seats m
+      | _ => false)
+    && nodupB (l.map (·.1)))
+  && (match sKindOf st with
+      | some k => can == ((lists.getD k []).length + 1 == g.operating.length)
+      | none => can)
+
 /-! ## monitor -/
 
 /-- `final` observation `(ops, [(m, f, r, b)])`: the final operators are the selected operators of
